@@ -246,6 +246,16 @@ def stream_fill_rule(ctx, r1):
                               "the packets then depend on how the stream behaves, not on its bytes", s.loc)
     for s in full:
         r1.ok("read_block_stream %s" % s.term.callee().get("name"), "", s.loc)
-    r1.floor(1, "stream reads")
+    # the reads go straight to the object's own stream: an adaptor that buffers (BufReader, Take<BufReader>, ...) created for the
+    # duration of one block reads ahead and drops the surplus when the block is done, so the next block starts too far
+    for s in reads + full:
+        selfty = (s.term.callee().get("substs") or ["?"])[0]
+        key = "read_block_stream reads the object's stream directly"
+        if re.match(r"^(&mut |&|std::boxed::Box<)*dyn sender::objectdesc::ObjectDataStreamTrait", selfty):
+            r1.ok(key, "Self = %s" % selfty, s.loc)
+        else:
+            r1.violation(key, "read() is called on `%s`, not on the object's stream: a per-block adaptor that buffers consumes bytes "
+                              "beyond the block and loses them" % selfty, s.loc)
+    r1.floor(2, "stream reads")
 
 
